@@ -3650,6 +3650,9 @@ class __implementations__:
 
     @implements(numpy.interp)
     def interp(x, xp, fp, left=None, right=None):
+        fp = numpy.asarray(fp)
+        if fp.dtype.kind != 'c':
+            fp = fp.astype(float)
         index = numpy.searchsorted(xp, x)
         _xp = numpy.concatenate([[xp[0]], xp])
         _fp = numpy.concatenate([[fp[0]], fp])
